@@ -535,3 +535,108 @@ pub fn op_to_string(specs: &[OpSpec], op: &Op) -> String {
         _ => format!("{}({},{})", s.name, op.a, op.b),
     }
 }
+
+/// C01 (a)-(c) for the pairing heap of the timer. Entries come from the pre-order walk.
+pub fn check_heap_queue(snap: &Snapshot, views: &[SlotView], run: &mut Run, order_out: &mut Vec<(u8, u8, u8, u8, u64)>) {
+    order_out.clear();
+    let es: Vec<&EntryRec> = snap.entries.iter().filter(|e| e.queue == 0).collect();
+    if es.len() >= (1 << 15) {
+        run.violate("C01", "queue-cycle", "timer heap walk did not terminate".into());
+        return;
+    }
+    let find = |addr: usize| es.iter().position(|e| e.addr == addr);
+    for (i, e) in es.iter().enumerate() {
+        if es.iter().skip(i + 1).any(|o| o.addr == e.addr) {
+            run.violate("C01", "linked-twice", format!("timer heap: node {:#x} is reachable twice", e.addr));
+            return;
+        }
+        let [parent, prev, next, child] = e.links;
+        if i == 0 && (parent != 0 || prev != 0 || next != 0) {
+            run.violate("C01", "queue-links-inconsistent", format!("timer heap: root {:#x} has parent/sibling links {:x?}", e.addr, e.links));
+            return;
+        }
+        if parent != 0 {
+            match find(parent) {
+                None => {
+                    run.violate("C01", "queue-links-inconsistent", format!("timer heap: node {:#x} has unknown parent {:#x}", e.addr, parent));
+                    return;
+                }
+                Some(p) => {
+                    if es[p].num > e.num {
+                        run.violate("C01", "heap-order", format!("timer heap: parent expiry {} > child expiry {}", es[p].num, e.num));
+                        return;
+                    }
+                    if prev == 0 && es[p].links[3] != e.addr {
+                        run.violate("C01", "queue-links-inconsistent", format!("timer heap: node {:#x} has no prev but is not its parent's first child", e.addr));
+                        return;
+                    }
+                }
+            }
+        } else if i != 0 {
+            run.violate("C01", "queue-links-inconsistent", format!("timer heap: non-root node {:#x} has no parent", e.addr));
+            return;
+        }
+        if prev != 0 {
+            match find(prev) {
+                Some(p) if es[p].links[2] == e.addr && es[p].links[0] == parent => {}
+                _ => {
+                    run.violate("C01", "queue-links-inconsistent", format!("timer heap: node {:#x} prev link {:#x} is not symmetric", e.addr, prev));
+                    return;
+                }
+            }
+        }
+        if next != 0 {
+            match find(next) {
+                Some(p) if es[p].links[1] == e.addr && es[p].links[0] == parent => {}
+                _ => {
+                    run.violate("C01", "queue-links-inconsistent", format!("timer heap: node {:#x} next link {:#x} is not symmetric", e.addr, next));
+                    return;
+                }
+            }
+        }
+        if child != 0 {
+            match find(child) {
+                Some(p) if es[p].links[0] == e.addr && es[p].links[1] == 0 => {}
+                _ => {
+                    run.violate("C01", "queue-links-inconsistent", format!("timer heap: node {:#x} first_child link {:#x} is not symmetric", e.addr, child));
+                    return;
+                }
+            }
+        }
+    }
+    let mut seen: Vec<u8> = Vec::new();
+    for e in &es {
+        let owner = views.iter().find(|v| v.range.is_some_and(|(lo, hi)| e.addr >= lo && e.addr < hi));
+        match owner {
+            None => {
+                run.violate("C01", "dangling-node", format!("timer heap: linked node {:#x} (expiry {}) lies in no live future", e.addr, e.num));
+                return;
+            }
+            Some(v) => {
+                if !v.pending {
+                    run.violate("C01", "linked-but-not-waiting", format!("timer heap: slot {} is linked (node state {}) but is not a pending future", v.idx, e.state));
+                    return;
+                }
+                if seen.contains(&v.idx) {
+                    run.violate("C01", "linked-twice", format!("timer heap: slot {} is linked twice", v.idx));
+                    return;
+                }
+                seen.push(v.idx);
+                let wv = match e.waker {
+                    None => 0,
+                    Some(255) => 255,
+                    Some(w) => 1 + (w & 1),
+                };
+                // shape: index of the parent in pre-order (+1), so equal shapes hash equal
+                let parent_pos = if e.links[0] == 0 { 0 } else { 1 + find(e.links[0]).unwrap_or(254) as u8 };
+                order_out.push((parent_pos, v.idx, e.state, wv, e.num));
+            }
+        }
+    }
+    for v in views {
+        if v.pending && !v.woken && !seen.contains(&v.idx) {
+            run.violate("C01", "waiting-but-not-linked", format!("timer: slot {} is pending, has no unconsumed wake-up, and is not in the timer heap", v.idx));
+            return;
+        }
+    }
+}
